@@ -294,7 +294,18 @@ def _job(args):
         return [(o.prop, o.fn, o.cls, dict(o.detail, routine=name, n=n), o.events) for o in recs]
     if name.startswith("c14:"):
         return _c14_job(name[4:], n, seed)
-    if name.endswith(("@we", "@rb", "@rt")):
+    if name.endswith("@sp"):
+        # the first matrix argument handed over in the library's own SPARSE container (storage variants cycle): routines
+        # that accept it must answer as for the dense matrix; one that does not accept it on this tree is skipped
+        from .qlib import sp_quat, q_to_float
+        jn, fn, a, kw = build(name[:-3], n, rng)
+        a = list(a)
+        ks = [i for i, x in enumerate(a) if isinstance(x, np.ndarray) and x.dtype == np.quaternion and x.ndim == 2]
+        if not ks:
+            return []
+        styled = (tuple(sp_quat(q_to_float(x)) if i == ks[0] else x for i, x in enumerate(a)), kw)
+        a = tuple(a)
+    elif name.endswith(("@we", "@rb", "@rt", "@th")):
         jn, fn, a, kw = build(name[:-3], n, rng)
         if name.endswith("@rt") and not (a and not isinstance(a[0], np.ndarray) and hasattr(a[0], "tol")):
             return []
@@ -395,13 +406,12 @@ def _job(args):
                         pass
             np.random.seed(seed % (2 ** 31))
         if name.endswith("@rt"):
-            # the caller solves once with a loose tolerance, then tightens the documented option on the SAME object and
+            # the caller solves once, then tightens the documented tolerance option on the SAME object and
             # solves again: the judged call must honour the current value (judges read obj.tol)
             obj_ = a_call[0]
-            tight = obj_.tol
-            obj_.tol = float(tight) * 1.0e4 if float(tight) > 0 else tight
             fn(*[x.copy() if isinstance(x, np.ndarray) else x for x in a_call], **kw_call)
-            obj_.tol = tight
+            if float(obj_.tol) > 0:
+                obj_.tol = float(obj_.tol) * 1.0e-5          # tightened below the value the object was constructed with
             np.random.seed(seed % (2 ** 31))
         if name.endswith(("@oc", "@o0")):
             # the caller keeps its option objects (a 0-d array holding a tolerance or a budget) and passes them again:
@@ -411,7 +421,43 @@ def _job(args):
                 fn(*[x.copy() if isinstance(x, np.ndarray) and x.ndim else x for x in a_call], **{k_: (v_.copy() if isinstance(v_, np.ndarray) and v_.ndim else v_) for k_, v_ in kw_call.items()})
             np.random.seed(seed % (2 ** 31))
         try:
-            if name.endswith("@we"):
+            if name.endswith("@th"):
+                # a batch processed by a thread pool (the natural way to use a library whose LAPACK calls release the GIL):
+                # the judged call runs while three other calls of the same routine, on their own matrices and their own
+                # solver objects, are in flight in the same process; the interpreter switches threads every 50 microseconds
+                import copy as _copy
+                import sys as _sys
+                import threading
+                own = lambda xs: [x.copy() if isinstance(x, np.ndarray) else (_copy.deepcopy(x) if hasattr(x, "__dict__") and not callable(x) else x) for x in xs]
+                rng_t = np.random.default_rng(seed + 1)
+                def other_args():
+                    o_ = own(a_call)
+                    for i_, x_ in enumerate(o_):
+                        if isinstance(x_, np.ndarray) and x_.dtype == np.quaternion and x_.ndim == 2:
+                            o_[i_] = q_from_float(rng_t.standard_normal(x_.shape + (4,)) * 3.0)
+                    return o_
+                others = [other_args() for _ in range(3)]
+                box, go = {}, threading.Barrier(4)
+                def run_(args_, key_):
+                    go.wait()
+                    try:
+                        box[key_] = ("ok", fn(*args_, **kw_call))
+                    except BaseException as e_:                   # noqa: BLE001 (re-raised in the caller's thread below)
+                        box[key_] = ("exc", e_)
+                si_ = _sys.getswitchinterval()
+                _sys.setswitchinterval(5e-5)
+                try:
+                    ths = [threading.Thread(target=run_, args=(a_call, 0))] + [threading.Thread(target=run_, args=(o_, k_ + 1)) for k_, o_ in enumerate(others)]
+                    for t_ in ths:
+                        t_.start()
+                    for t_ in ths:
+                        t_.join()
+                finally:
+                    _sys.setswitchinterval(si_)
+                if box[0][0] == "exc":
+                    raise box[0][1]
+                out = box[0][1]
+            elif name.endswith("@we"):
                 # a strict interpreter (python -W error::DeprecationWarning, the way many test suites run): behaviour that
                 # numpy announces "will error in future" is an error now
                 with warnings.catch_warnings():
@@ -422,8 +468,14 @@ def _job(args):
             else:
                 out = fn(*a_call, **kw_call)
         except TypeError as e_:
+            if name.endswith("@sp"):
+                return []          # this routine does not take the sparse container (on this tree)
             if styled is not None and any(t_ in str(e_) for t_ in ("unexpected keyword argument", "positional argument", "multiple values for")):
                 return []      # the signature itself changed (a renamed or removed parameter): an API matter, not this property's
+            raise
+        except (AttributeError, ValueError, IndexError, NotImplementedError):
+            if name.endswith("@sp"):
+                return []
             raise
     attr = jn.split(".")[-1] if jn.split(".")[0][0].isupper() else jn
     if styled is None and attr not in J.INPLACE_BY_DESIGN and jn not in J.INPLACE_BY_DESIGN and "Hess_QR" not in jn:
@@ -529,6 +581,8 @@ def stage(ctx, quick=False):
             jobs.append((nm + "@we", n, ctx.seed * 1013 + 53 * n + len(jobs)))
             jobs.append((nm + "@rb", n, ctx.seed * 1013 + 59 * n + len(jobs)))
             jobs.append((nm + "@rt", n, ctx.seed * 1013 + 61 * n + len(jobs)))
+            jobs.append((nm + "@sp", n, ctx.seed * 1013 + 67 * n + len(jobs)))
+            jobs.append((nm + "@th", n, ctx.seed * 1013 + 71 * n + len(jobs)))
             jobs.append((nm + "@df", n, ctx.seed * 1013 + 43 * n + len(jobs)))
             for st_ in ("@pp", "@kw", "@oc", "@o0"):
                 jobs.append((nm + st_, n, ctx.seed * 1013 + 47 * n + len(jobs)))
